@@ -17,6 +17,7 @@ import (
 var (
 	repoDir  = "/repo"
 	verifDir = "/verif"
+	outDir   = "/verif" // evidence/ and replays/ are written below this
 )
 
 const contractFile = "zz_contracts_verif.go"
@@ -180,7 +181,7 @@ func (s *Session) targets(prop string, only string) ([]target, []string) {
 			if prop != "" && !hasProp(fs, prop) {
 				continue
 			}
-			if only != "" && !strings.HasSuffix(key, only) {
+			if only != "" && !strings.Contains(key, only) {
 				continue
 			}
 			fn := w.lookupFunc(fs.Pkg, fs.Target)
@@ -208,6 +209,10 @@ func main() {
 	}
 	if v := os.Getenv("GOVC_VERIF"); v != "" {
 		verifDir = v
+		outDir = v
+	}
+	if v := os.Getenv("GOVC_OUT"); v != "" {
+		outDir = v
 	}
 	switch os.Args[1] {
 	case "check":
@@ -386,16 +391,32 @@ func cmdBaseline(args []string) int {
 			fmt.Println("FATAL", p, rep.Fatal)
 			return 1
 		}
-		var names []string
+		// a claim is (function, obligation kind[:clause]); it enters the
+		// baseline when every instance generated for it discharges
+		ok := map[string]bool{}
 		for _, o := range rep.All {
-			if o.Soft || o.Status != "discharged" {
+			if o.Soft {
 				continue
 			}
-			names = append(names, o.Name)
+			c := o.Name
+			if k := strings.LastIndex(c, "@"); k >= 0 {
+				c = c[:k]
+			}
+			if o.Status != "discharged" {
+				ok[c] = false
+			} else if _, seen := ok[c]; !seen {
+				ok[c] = true
+			}
+		}
+		var names []string
+		for c, good := range ok {
+			if good {
+				names = append(names, c)
+			}
 		}
 		sort.Strings(names)
 		base[p] = names
-		fmt.Printf("%s: %d obligations in baseline (%d undecided, %d known)\n", p, len(names), len(rep.Undecided), rep.Known)
+		fmt.Printf("%s: %d claims in baseline (%d undecided, %d known)\n", p, len(names), len(rep.Undecided), rep.Known)
 	}
 	os.MkdirAll(filepath.Dir(path), 0o755)
 	b, _ := json.MarshalIndent(base, "", " ")
